@@ -4,6 +4,7 @@ import Nsq.Tie.AdminGate
 import Nsq.Proofs.AdminProg
 import Nsq.Tie.AdminProg
 import Nsq.Tie.AdminNotify
+import Nsq.Proofs.AdminReach
 /-!
 # C17 — nsqadmin state-changing actions require an admin identity
 
@@ -16,7 +17,7 @@ every behaviour of the upstreams (`Env`). The decidable judgements on the finite
 -/
 namespace Nsq.Props.C17
 open Nsq.Model.AdminGate Nsq.Proofs.AdminGate Nsq.Proofs.AdminFanout Nsq.Tie.AdminGate
-open Nsq.Gen.AdminRoutes
+open Nsq.Gen.AdminRoutes Nsq.Proofs.AdminReach
 
 /-- **mutating_guarded.** Every POST / PUT / DELETE route below `/api` in the regenerated table
 has a handler skeleton, and for every configuration, request and upstream behaviour: a request
@@ -167,11 +168,122 @@ example : run (sampleEnv [] []) adminSkel_channelActionHandler
     = (200, [.bodyRead, .upstream "EmptyChannel"]) := by decide
 example : run (sampleEnv ["alice"] []) adminSkel_channelActionHandler = (403, []) := by decide
 
-/-- **admin_fanout (request level).** The `ClusterInfo` actions as sets of upstream requests
-(model `Nsq.Model.AdminFanout`, tied to `internal/clusterinfo/data.go` by the correspondence
-harness): every action POSTs its command to *every* producer of the topic that the responding
-nsqlookupds (or, without lookupds, the configured nsqds) report, and the create / delete /
-tombstone actions additionally to *every* configured nsqlookupd. -/
+
+/-! ## "State-changing" by effect, and the action reached (audit round 7: C18, C19) -/
+
+/-- **state_change_requires_admin.** State-changing is defined by what a handler *does*, not by the method
+it is registered under: for every route of the regenerated table — GET routes included — and every
+environment, a run that shows a write to the outside (an upstream call that can send a non-GET request
+according to the regenerated classification `upstreamWrites`, a notification, a configuration write) belongs
+to a `/config` route (CIDR gate: `config_cidr`), to the graphite proxy, or was made with an admin identity. -/
+theorem state_change_requires_admin (r : Route) (hr : r ∈ adminRoutes) (sk : Skel) (hsk : skelOf r = some sk)
+    (env : Env) (hw : writeObs upstreamWrites (run env sk).2 = true) :
+    r.isConfig = true ∨ r.isProxy = true ∨ isAdmin env.conf env.req = true := by
+  by_cases hcw : canWrite upstreamWrites sk = true
+  · have h := writers_are_mutating_or_config
+    simp only [List.all_eq_true, List.mem_filter] at h
+    have h' := h r ⟨hr, by simp [skelWrites, hsk, hcw]⟩
+    simp only [Bool.or_eq_true] at h'
+    rcases h' with (hm | hc) | hp
+    · right; right
+      obtain ⟨sk', hsk', hg⟩ := mutating_guarded r hr hm
+      rw [hsk] at hsk'
+      cases hsk'
+      cases hadm : isAdmin env.conf env.req with
+      | true => rfl
+      | false => rw [hg env hadm] at hw; simp [writeObs] at hw
+    · exact Or.inl hc
+    · exact Or.inr (Or.inl hp)
+  · simp only [Bool.not_eq_true] at hcw
+    rw [noWrite_run upstreamWrites env sk hcw] at hw
+    cases hw
+
+/-- Non-vacuity: deleting a topic as an admin is such a write; the same request from somebody else shows
+nothing. -/
+example : writeObs upstreamWrites
+    (run (sampleEnv ["alice"] [("X-Forwarded-User", "alice")]) adminSkel_deleteTopicHandler).2 = true := by decide
+example : writeObs upstreamWrites
+    (run (sampleEnv ["alice"] [("X-Forwarded-User", "mallory")]) adminSkel_deleteTopicHandler).2 = false := by decide
+
+/-- **views_only_read.** Every GET route outside `/config` (API views, pages, static files) performs no write
+in any environment: no upstream call other than GETs, no notification, no configuration write. -/
+theorem views_only_read (r : Route) (hr : r ∈ adminRoutes) (hg : r.plainGet = true) :
+    ∃ sk, skelOf r = some sk ∧ ∀ env : Env, writeObs upstreamWrites (run env sk).2 = false := by
+  have h := get_routes_readonly
+  simp only [checkAll, List.all_eq_true, List.mem_filter] at h
+  have h' := h r ⟨hr, hg⟩
+  cases hs : skelOf r with
+  | none => simp [hs] at h'
+  | some sk =>
+    simp only [hs, Bool.not_eq_true'] at h'
+    exact ⟨sk, rfl, fun env => noWrite_run upstreamWrites env sk h'⟩
+
+example : (adminRoutes.filter Route.plainGet).length = 18 := by decide
+example : upstreamObs (run (sampleEnv [] []) adminSkel_topicHandler).2 = ["GetTopicProducers", "GetNSQDStats"] := by decide
+
+/-- **admin_carried_out.** "With an admin identity, or with no admin list, the action is carried out": for
+every mutating route and every environment in which the request carries an admin identity and is well
+formed — its body decodes, the names it gives pass `IsValidTopicName` / `IsValidChannelName` (the tests listed
+by `validOf`), and for the pause / unpause / empty routes the body names one of these three — the handler
+answers 200 or 502 *and* has performed exactly the `ClusterInfo` action of the table. There is no other way
+out behind the admin check. What that action sends where: `fanout_exactly_once`, `fanout_producers`. -/
+theorem admin_carried_out (r : Route) (hr : r ∈ adminRoutes) (hm : r.mutating = true) :
+    ∃ sk, skelOf r = some sk ∧ ∀ env : Env,
+      WellFormed env (validOf r.handler).others →
+      (∀ as, (validOf r.handler).actions = some as → env.req.action ∈ as) →
+      ((run env sk).1 = 200 ∨ (run env sk).1 = 502) ∧
+      upstreamObs (run env sk).2 =
+        [expectedAction r.handler env.req.action (env.req.nonEmptyParams.contains "channel")] := by
+  have h := mutating_routes_reach
+  simp only [List.all_eq_true, List.mem_filter] at h
+  have h' := h r ⟨hr, hm⟩
+  obtain ⟨sk0, hsk0, hfan⟩ := admin_fanout r hr hm
+  cases hs : skelOf r with
+  | none => simp [hs] at h'
+  | some sk =>
+    simp only [hs] at h'
+    rw [hs] at hsk0
+    have hsame : sk = sk0 := Option.some.inj hsk0
+    subst hsame
+    refine ⟨sk, rfl, fun env wf hact => ?_⟩
+    have hst := adminReaches_run env r.handler sk h' wf hact
+    exact ⟨hst, (hfan env).1 hst⟩
+
+/-- Non-vacuity, one 200-path per mutating handler: a well-formed request of an admin is answered 200 and
+the one expected action is among the effects. -/
+def okEnv (action : String) (params body : List String) : Env :=
+  { conf := { adminUsers := ["alice"], aclHeader := "X-Forwarded-User", cidrSet := false,
+              lookupdMode := true, notifyOn := false },
+    req := { method := "POST", headers := [("X-Forwarded-User", "alice")], action := action, opt := "",
+             nonEmptyParams := params, nonEmptyBody := body },
+    inNet := true, bodyOk := true, upstreamErr := fun _ _ => .none,
+    localErr := fun _ _ => false, otherCond := fun _ => false }
+
+example : WellFormed (okEnv "" [] ["Topic"]) (validOf "createTopicChannelHandler").others :=
+  ⟨by decide, rfl, fun _ _ => rfl⟩
+example : run (okEnv "" [] ["Topic", "Channel"]) adminSkel_createTopicChannelHandler
+    = (200, [.bodyRead, .upstream "CreateTopicChannel"]) := by decide
+example : run (okEnv "pause" ["topic"] []) adminSkel_topicActionHandler
+    = (200, [.bodyRead, .upstream "PauseTopic"]) := by decide
+example : run (okEnv "unpause" ["topic", "channel"] []) adminSkel_channelActionHandler
+    = (200, [.bodyRead, .upstream "UnPauseChannel"]) := by decide
+example : run (okEnv "" ["node"] ["Topic"]) adminSkel_tombstoneNodeForTopicHandler
+    = (200, [.bodyRead, .upstream "TombstoneNodeForTopic"]) := by decide
+example : run (okEnv "" ["topic"] []) adminSkel_deleteTopicHandler
+    = (200, [.upstream "DeleteTopic"]) := by decide
+example : run (okEnv "" ["topic", "channel"] []) adminSkel_deleteChannelHandler
+    = (200, [.upstream "DeleteChannel"]) := by decide
+/-- … and what the well-formedness hypothesis excludes is refused *before* anything is sent. -/
+example : run { okEnv "delete" ["topic"] [] with bodyOk := true } adminSkel_topicActionHandler = (400, [.bodyRead]) := by decide
+example : run { okEnv "" [] ["Topic"] with otherCond := fun s => s == "!protocol.IsValidTopicName(body.Topic)" }
+    adminSkel_createTopicChannelHandler = (400, [.bodyRead]) := by decide
+
+/-- **admin_fanout (request level) — a membership lemma of the older model, not a tie.** In the hand-written
+model `Nsq.Model.AdminFanout` the list `requests w act` is *defined* as lookupd posts ++ lookup GETs ++ producer
+posts; this theorem only unfolds that definition (`List.mem_map`). It says something about the code only
+through the `gate` correspondence stream, which compares `requests` with what the stubs recorded. The
+statements that carry weight are `fanout_exactly_once` / `fanout_producers` below, about the *translated*
+programs (`Tie.AdminProg`). Kept because the driver's `gate` op still uses `requests`. -/
 theorem admin_fanout_requests (w : Nsq.Model.AdminFanout.World) (act : Nsq.Model.AdminFanout.Action) :
     (∀ p ∈ Nsq.Model.AdminFanout.producersFor w act,
         Nsq.Model.AdminFanout.Req.post p (Nsq.Model.AdminFanout.nsqdCommand act) ∈
@@ -274,18 +386,22 @@ example : (runAction sampleWorld sampleDelete).aborted = false ∧
 
 /-- **fanout_producers.** Who the relevant nsqds are: the producer list after a successful lookup is the
 lookup's answer; through nsqlookupd it has no duplicates and contains exactly the addresses that some
-responding nsqlookupd reports; in direct mode it is the configured nsqds that answer and list the topic.
-`GetTopicProducers` asks the nsqlookupds iff one is configured (`Tie.getTopicProducers_fallback`). -/
+responding nsqlookupd reports; in direct mode it has one entry per configured nsqd that answers and lists the
+topic — **the address that nsqd's `/info` reports** (`reportOf`), not the configured one, and not
+de-duplicated; for a tombstone it is the address the named node reports. `GetTopicProducers` asks the
+nsqlookupds iff one is configured (`Tie.getTopicProducers_fallback`). The last three conjuncts restate the
+definitions of the model (they are what the `fan` correspondence stream checks against the code). -/
 theorem fanout_producers (w : World) (a : Action) (hwf : Action.wf a)
     (hab : (runAction w a).aborted = false) (l : Lookup) (hl : lookupOf a.kind = some l) :
     (runAction w a).producers = (doLookup w a l).producers ∧
     ((lookupdTopicProducers w a).producers.Nodup ∧
       ∀ p, p ∈ (lookupdTopicProducers w a).producers ↔
         ∃ lk ∈ w.lookupds, getOk w lk.addr = true ∧ p ∈ lk.producers) ∧
-    (nsqdTopicProducers w a).producers = w.nsqdAddrs.filter (nodeHasTopic w) ∧
+    (nsqdTopicProducers w a).producers = (w.nsqdAddrs.filter (nodeHasTopic w)).map (reportOf w) ∧
+    (nsqdProducersOfNode w a).producers = (if nodeUp w a.node then [reportOf w a.node] else []) ∧
     doLookup w a .topicProducers =
       (if !w.lookupds.isEmpty then lookupdTopicProducers w a else nsqdTopicProducers w a) :=
-  ⟨(producers_of_run w a hwf hab l hl).1, lookupd_producers w a, rfl, rfl⟩
+  ⟨(producers_of_run w a hwf hab l hl).1, lookupd_producers w a, rfl, rfl, rfl⟩
 
 example : lookupOf sampleDelete.kind = some .topicProducers := by decide
 
@@ -300,6 +416,81 @@ theorem fanout_lookup_first (w : World) (a : Action)
 
 example : sampleDelete.kind ≠ .createTopic ∧ sampleDelete.kind ≠ .createChannel ∧
     sampleDelete.kind ≠ .tombstone := by decide
+
+/-- **fanout_goes_where_info_points** (audit C16). In direct-nsqd mode and for a tombstone the nsqd command is
+not sent to the address nsqadmin was configured with / was asked about, but to the address that nsqd's own
+`/info` answer reports, and two nsqds that report the same address get it twice there. So
+`DELETE /api/nodes/A`, when A's `/info` claims B's address, deletes the topic on **B**. This is what the
+code does (`Producer.HTTPAddress()`); the theorem states it, the examples show it. -/
+theorem fanout_goes_where_info_points (w : World) (a : Action) (hwf : Action.wf a)
+    (hab : (runAction w a).aborted = false) :
+    (a.kind = .tombstone →
+      postsTo (runAction w a) .nsqd "/topic/delete" (qsOf a .topic) =
+        (if nodeUp w a.node then [reportOf w a.node] else [])) ∧
+    (w.lookupds = [] → ∀ c, nsqdCmd a.kind = some c → lookupOf a.kind = some .topicProducers →
+      postsTo (runAction w a) .nsqd (pathOf c.1) (qsOf a c.2) =
+        (w.nsqdAddrs.filter (nodeHasTopic w)).map (reportOf w)) := by
+  constructor
+  · intro hk
+    have h1 := nsqds_exactly_once w a hwf hab ("topic/delete", .topic) (by simp [nsqdCmd, hk])
+    have h2 := (producers_of_run w a hwf hab .nsqdProducersOfNode (by simp [lookupOf, hk])).1
+    simpa [pathOf, h2, doLookup, node_producers] using h1
+  · intro hl c hc hlk
+    have h1 := nsqds_exactly_once w a hwf hab c hc
+    have h2 := (producers_of_run w a hwf hab .topicProducers hlk).1
+    rw [h1, h2]
+    simp [doLookup, hl, nsqd_producers]
+
+/-- A's `/info` claims B's address: the tombstone of A deletes the topic on B, and A is only asked. -/
+def liarWorld : World :=
+  { lookupds := [{ addr := "L", up := true, producers := [] }], nsqdAddrs := [],
+    nsqds := [{ addr := "A", up := true, hasTopic := true, reports := "B" },
+              { addr := "B", up := true, hasTopic := true }] }
+
+example : (runAction liarWorld { kind := .tombstone, topic := "t1", node := "A" }).reqs.map renderReq =
+    ["P:L/topic/tombstone?topic=t1&node=A", "G:A/info", "G:A/stats?format=json&include_clients=false",
+     "P:B/topic/delete?topic=t1"] := by decide
+/-- Direct mode, two configured nsqds reporting one address: that address is POSTed twice. -/
+def twinWorld : World :=
+  { lookupds := [], nsqdAddrs := ["A", "B"],
+    nsqds := [{ addr := "A", up := true, hasTopic := true, reports := "B" },
+              { addr := "B", up := true, hasTopic := true }] }
+
+example : ((runAction twinWorld { kind := .emptyTopic, topic := "t" }).reqs.filter (·.post)).map renderReq =
+    ["P:B/topic/empty?topic=t", "P:B/topic/empty?topic=t"] := by decide
+
+/-- **create_direct_mode_sends_nothing** (audit C15; open finding `fanout:create-direct-mode`). Without a
+configured nsqlookupd `CreateTopicChannel` — which is only ever given the nsqlookupd addresses — sends no
+request at all; for a topic alone it returns nil: the handler answers 200 and announces `create_topic`, and
+no nsqd has been told (with a channel it returns "failed to query any nsqlookupd" over zero nsqlookupds: 502). `fanout_exactly_once` holds for this action only because its set of relevant upstreams is empty. -/
+theorem create_direct_mode_sends_nothing (w : World) (a : Action) (hl : w.lookupds = [])
+    (hk : a.kind = .createTopic ∨ a.kind = .createChannel) :
+    (runAction w a).reqs = [] ∧
+    (a.channel = "" → (resultOf (progOf a.kind) (runAction w a)).1 = .none) ∧
+    (a.channel ≠ "" → (resultOf (progOf a.kind) (runAction w a)).1 = .full) := by
+  have hp : progOf a.kind = createProg := by rcases hk with hk | hk <;> simp [progOf, hk]
+  unfold runAction
+  rw [hp]
+  by_cases hc : a.channel = "" <;>
+    simp [Nsq.Model.AdminProg.run, runSteps, execStep, createProg, agg, aggCh, opReqs, doLookup,
+      lookupdTopicProducers, hl, hc, failCount, St.reqs, resultOf, guardHolds]
+
+def soloWorld : World :=
+  { lookupds := [], nsqdAddrs := ["A"], nsqds := [{ addr := "A", up := true, hasTopic := false }] }
+
+example : (runAction soloWorld { kind := .createTopic, topic := "brandnew" }).reqs = [] := by decide
+/-- The full clause "the action is carried out on every relevant nsqd" is therefore false of the code in this
+mode: an nsqd is configured, the answer is `nil` (→ 200), and it received nothing. -/
+def CreateReachesConfiguredNsqds : Prop :=
+  ∀ (w : World) (a : Action), a.kind = .createTopic → (resultOf (progOf a.kind) (runAction w a)).1 = .none →
+    ∀ n ∈ w.nsqdAddrs, ∃ r ∈ (runAction w a).reqs, r.post = true ∧ r.addr = n
+
+theorem create_reaches_configured_nsqds_false : ¬ CreateReachesConfiguredNsqds := by
+  intro h
+  obtain ⟨r, hr, _⟩ := h soloWorld { kind := .createTopic, topic := "brandnew" } rfl (by decide) "A" (by simp [soloWorld])
+  have hnil : (runAction soloWorld { kind := .createTopic, topic := "brandnew" }).reqs = [] := by decide
+  rw [hnil] at hr
+  cases hr
 
 end Programs
 
